@@ -73,7 +73,12 @@ Record lockfacts := {
   ul_attempts : nat;
   ul_retry_context : bool;
   (* heartBeat *)
-  hb_body : list hbstmt }.
+  hb_body : list hbstmt;
+  (* files.go VFS.Exists / checkDirExists *)
+  ex_stat_error_means_absent : bool;   (* Exists answers false whenever its Stat fails, whatever the error *)
+  ex_dir_double_check : bool;          (* a directory is confirmed by checkDirExists (Open + Readdirnames(1)) *)
+  ex_open_error_means_absent : bool;
+  ex_readdir_error_other_than_notexist_means_present : bool }.
 
 (* what the hand-written parts of the model and of the harness assume *)
 Definition expected_facts : lockfacts := {|
@@ -92,7 +97,9 @@ Definition expected_facts : lockfacts := {|
   lwt_registers_cancels_in_store := true; lwt_timeout_cancels_store := false; lwt_success_keeps_action_context := true;
   ul_cancel_first := true; ul_rm_lockpath := true; ul_rm_error_retried := true; ul_recheck_exists := true;
   ul_attempts := 10; ul_retry_context := true;
-  hb_body := [HCtxCheckReturn; HNow; HWriteIgnoreErr; HChtimesIgnoreErr; HSleepPeriodMinusMs 1] |}.
+  hb_body := [HCtxCheckReturn; HNow; HWriteIgnoreErr; HChtimesIgnoreErr; HSleepPeriodMinusMs 1];
+  ex_stat_error_means_absent := true; ex_dir_double_check := true; ex_open_error_means_absent := true;
+  ex_readdir_error_other_than_notexist_means_present := true |}.
 
 Scheme Equality for mkdir_kind.
 Scheme Equality for errk.
@@ -150,3 +157,9 @@ Definition cond_threshold (F : lockfacts) : bool :=
 Definition cond_heartbeat (F : lockfacts) : bool :=
   negb (lwt_timeout_cancels_store F) && lwt_success_keeps_action_context F && negb (lwt_unlock_on_timeout F) &&
   negb (hb_stops_on_write_error F) && tl_hb_ctx_with_cancel_of_ctx F && tl_hb_cancel_registered F.
+
+(* the existence test the model's [exists_] mirrors: a failed Stat / Open means absent, a failed Readdirnames other than
+   "does not exist" means present *)
+Definition cond_exists (F : lockfacts) : bool :=
+  ex_stat_error_means_absent F && ex_dir_double_check F && ex_open_error_means_absent F &&
+  ex_readdir_error_other_than_notexist_means_present F.
